@@ -116,6 +116,12 @@ pub mod l1 {
     #[verifier::external_body]
     pub fn range_incl_contains(a: f64, b: f64, x: f64) -> (r: bool) ensures r == (rv(a) <= rv(x) && rv(x) <= rv(b)) { (a..=b).contains(&x) }
 
+    // rule R6: `ITER.sum::<f64>()` is rewritten to `vsum(ITER.collect::<Vec<f64>>())`; std's `impl Sum<f64>` is an in-order fold
+    // (assumed contract on std, spot-checked, DESIGN §4.3): over the reals it is the sum of the elements
+    pub open spec fn rsum(x: Seq<f64>, k: int) -> real decreases k { if k <= 0 { 0real } else { rsum(x, k - 1) + rv(x[k - 1]) } }
+    #[verifier::external_body]
+    pub fn vsum(v: Vec<f64>) -> (r: f64) ensures rv(r) == rsum(v@, v@.len() as int) { v.iter().sum() }
+
     // constants (rule R9)
     #[verifier::external_body]
     pub fn c_pi() -> (r: f64) ensures rv(r) == r_pi() { core::f64::consts::PI }
